@@ -93,6 +93,11 @@ def run(cx):
                 CP.has_cond(c, f'(is (call *project_with_tol (param self) (index (param points) {I}) (param max_dist) (param max_angle) (param transform)) Some)', True) and \
                 len([1 for a, p in c['conds']]) == 1
         cx.ob('GUARD', 'Mesh::indices_in_tol', ok, 'index i is reported exactly when project_with_tol(points[i], max_dist, max_angle, transform) is Some', where=b.file)
+    # the two consumers of the mesh projection that add their own geometry on top of it (rules shared with C16 / C20)
+    from rules.C16 import deviation_fallback_rules
+    from rules.C20 import uv_with_tol_rule
+    deviation_fallback_rules(cx)
+    uv_with_tol_rule(cx)
     E.enc(cx, M, ('shape', 'is_solid', 'uv'), constructors=[f'{M}::new', f'{M}::new_take_trimesh', f'{M}::new_with_uv', f'{M}::new_with_options'])
 
 
